@@ -7,6 +7,7 @@ import CasModel.Keys
 import CasModel.Index
 import CasModel.Blake3
 import CasModel.Wire
+import CasModel.Sim
 /-
   Model driver: one request per input line, one response line per request.
   The functions called here are the ones the theorems are about; this file only parses and prints.
@@ -52,6 +53,7 @@ def showReadErr : ReadErr → String
 structure DState where
   kind : KeyKind := .bytes
   idx : IndexState Bytes := {}
+  w : World := {}
 
 def showIdxPanic : IdxPanic → String
   | .decrementZero => "decrementZero" | .hashNotFound => "hashNotFound"
@@ -65,6 +67,262 @@ def showIdxObs (s : IndexState Bytes) : String :=
   let rcs := (s.rc.toArray.qsort (fun a b => bytesLt a.1 b.1)).toList
   let rc := showList (fun (h, c) => s!"{toHexString h}:{c}") rcs
   s!"{es} {rc} {s.uniqueBlobs} {s.totalBytes}"
+
+
+/-! ### store protocol -/
+
+def genBytes (seed len : Nat) : Bytes :=
+  (List.range len).map (fun i => UInt8.ofNat ((seed * 131 + i * 31 + i / 251) % 256))
+
+def parseChunk (s : String) : Option Bytes :=
+  if s.startsWith "=" then parseHex (s.drop 1).toString
+  else if s.startsWith "~" then
+    match (s.drop 1).toString.splitOn ":" with
+    | [a, b] => do let a ← a.toNat?; let b ← b.toNat?; pure (genBytes a b)
+    | _ => none
+  else none
+
+def parseChunks (s : String) : Option (List Bytes) :=
+  if s = "_" then some [] else (s.splitOn ",").mapM parseChunk
+
+def fidText : FileId → String
+  | .lock => "lock" | .settings => "settings" | .settingsTmp => "settings.tmp"
+  | .index => "index" | .indexTmp => "index.tmp"
+  | .seg i => s!"seg:{i}" | .cas h => s!"cas:{toHexString h}" | .staging n => s!"staging:{n}"
+
+def parseFid (s : String) : Option FileId :=
+  match s with
+  | "lock" => some .lock | "settings" => some .settings | "settings.tmp" => some .settingsTmp
+  | "index" => some .index | "index.tmp" => some .indexTmp
+  | _ =>
+    match s.splitOn ":" with
+    | ["seg", i] => i.toNat?.map .seg
+    | ["cas", h] => (parseHex h).map .cas
+    | ["staging", n] => n.toNat?.map .staging
+    | _ => none
+
+def digest (bs : Bytes) : String := s!"{bs.length}:{toHexString (H bs)}"
+
+def evText : Ev → Option String
+  | .mkdir p => some ("mkdir " ++ "/".intercalate (p.map asciiString))
+  | .creat f t => some s!"creat {fidText f} {if t then "trunc" else "plain"}"
+  | .write (.staging _) _ => none
+  | .write f bs => some s!"write {fidText f} {digest bs}"
+  | .sync f => some s!"sync {fidText f}"
+  | .rename a b => some s!"rename {fidText a} {fidText b}"
+  | .unlink f => some s!"unlink {fidText f}"
+  | .flock => some "flock"
+
+def showTrace (evs : List Ev) : String :=
+  let l := evs.filterMap evText
+  if l.isEmpty then "_" else ";".intercalate l
+
+def showDump (d : Disk) : String :=
+  let f (id : FileId) := match d.get id with | some x => digest x.data | none => "-"
+  let segs := (segIds d).map (fun i => s!"{i}:{f (.seg i)}")
+  let cas := ((casFiles d).toArray.qsort (fun a b => bytesLt a.1 b.1)).toList.map
+    (fun (h, x) => s!"{toHexString h}:{digest x.data}")
+  let tmp := (if d.has .indexTmp then "1" else "0") ++ (if d.has .settingsTmp then "1" else "0")
+  s!"index={f .index} segs={showList id segs} cas={showList id cas} staging={(stagingFiles d).length} settings={f .settings} tmp={tmp}"
+
+def showOpenErr : OpenErr → String
+  | .alreadyOpened => "alreadyOpened" | .settingsParse => "settingsParse"
+  | .unsupportedVersion => "unsupportedVersion" | .validation => "validation"
+  | .emptyIndex => "emptyIndex" | .decodeIndex e => "decodeIndex " ++ showDecErr e
+  | .decodeKey => "decodeKey" | .replayRead e => "replayRead " ++ showReadErr e
+  | .replayDecode e => "replayDecode " ++ showDecErr e | .replayConvert => "replayConvert"
+  | .integrity m c => s!"integrity {m} {c}" | .panic p => "panic " ++ showIdxPanic p
+
+def parseCfg (toks : List String) : Option Config := do
+  let get (k : String) : Option String :=
+    toks.findSome? (fun t => if t.startsWith (k ++ "=") then some (t.drop (k.length + 1)).toString else none)
+  let nat (k : String) (d : Nat) : Nat := ((get k).bind String.toNat?).getD d
+  let kind ← parseKind ((get "kind").getD "bytes")
+  pure { kind := kind, N := nat "n" 10000, sync := nat "sync" 1 == 1, pre := nat "pre" 0 == 1,
+         scan := nat "scan" 1 == 1, verify := nat "verify" 0 == 1, failOnIntegrity := nat "fail" 1 == 1 }
+
+def parseLo (s : String) : Option Bound :=
+  if s = "*" then some .unbounded
+  else if s.startsWith "[" then (parseHex (s.drop 1).toString).map .incl
+  else if s.startsWith "(" then (parseHex (s.drop 1).toString).map .excl
+  else none
+
+def parseHi (s : String) : Option Bound :=
+  if s = "*" then some .unbounded
+  else if s.endsWith "]" then (parseHex (s.dropEnd 1).toString).map .incl
+  else if s.endsWith ")" then (parseHex (s.dropEnd 1).toString).map .excl
+  else none
+
+def withOutcome (armed : Bool) (o : Outcome) (res : String) : String :=
+  match o with
+  | .crashed => "crashed"
+  | .completed n => if armed then s!"nocrash events={n} {res}" else res
+
+def showEntries (m : KMap Bytes) : String :=
+  if m.isEmpty then "_" else
+  ";".intercalate (m.map (fun (k, i) => s!"{toHexString k}:{toHexString i.hash}:{i.size}"))
+
+def storeStep (w : World) (toks : List String) : Option (World × String) :=
+  let armed := w.plan.isSome
+  match toks with
+  | "cfg" :: rest => (parseCfg rest).map (fun c => ({ cfg := c }, "ok"))
+  | ["crashnext", k] => k.toNat?.map (fun k => ({ w with plan := some ⟨k, none, false⟩ }, "armed"))
+  | ["plossnext", k, spec] => do
+    let k ← k.toNat?
+    if spec = "all" then pure ({ w with plan := some ⟨k, some [], true⟩ }, "armed")
+    else
+      let l ← parseList parseFid spec
+      pure ({ w with plan := some ⟨k, some l, false⟩ }, "armed")
+  | ["exit"] => some ({ w with handle := none, scan := none, txs := [], plan := none }, "crashed")
+  | ["open"] =>
+    let (evs, r) := openScript H w.cfg w.disk w.handle.isSome
+    match r with
+    | .ok (m, sc) =>
+      let (w', o) := w.exec evs (fun w => { w with handle := some m, scan := some sc })
+      some (w', withOutcome armed o (if w.cfg.scan then
+        s!"ok orphans={sc.orphaned.length} missing={sc.missing.length} corrupted={sc.corrupted.length} staging={sc.staging} total={sc.total}"
+        else "ok noscan"))
+    | .error e =>
+      let (w', o) := w.exec evs id
+      some (w', withOutcome armed o ("err " ++ showOpenErr e))
+  | ["open2"] =>
+    let (evs, r) := openScript H w.cfg w.disk w.handle.isSome
+    let (w', _) := w.exec evs id
+    some (w', match r with | .ok _ => "ok second-handle" | .error e => "err " ++ showOpenErr e)
+  | ["close"] =>
+    match w.handle with
+    | none => some (w, "ok")
+    | some m =>
+      let (w', o) := w.exec (closeScript m) (fun w => { w with handle := none, scan := none, txs := [] })
+      some (w', withOutcome armed o "ok")
+  | ["dropstats"] => some ({ w with scan := none }, "ok")
+  | ["put", k, chunks] => do
+    let k ← parseHex k
+    let chunks ← parseChunks chunks
+    match w.handle with
+    | none => pure (w, "nohandle")
+    | some m =>
+      let t := w.stagingCtr
+      let (evs, m', r) := putScript H m w.disk t k chunks
+      let (w', o) := { w with stagingCtr := t + 1 }.exec evs (fun w => { w with handle := some m' })
+      pure (w', withOutcome armed o (match r with | .ok => "ok" | .panic _ => "panic"))
+  | ["begin", id, k] => do
+    let id ← id.toNat?
+    let k ← parseHex k
+    match w.handle with
+    | none => pure (w, "nohandle")
+    | some _ =>
+      let t := w.stagingCtr
+      let (w', o) := { w with stagingCtr := t + 1 }.exec (beginScript t)
+        (fun (w : World) => { w with txs := w.txs ++ [({ id := id, t := t, key := k, chunks := [] } : Tx)] })
+      pure (w', withOutcome armed o "ok")
+  | ["write", id, chunk] => do
+    let id ← id.toNat?
+    let c ← parseChunk chunk
+    match w.txs.find? (·.id = id) with
+    | none => pure (w, "notx")
+    | some _ =>
+      pure ({ w with txs := w.txs.map (fun t => if t.id = id then { t with chunks := t.chunks ++ [c] } else t) }, "ok")
+  | ["finish", id] => do
+    let id ← id.toNat?
+    match w.txs.find? (·.id = id), w.handle with
+    | some tx, some m =>
+      let (evs, m', r) := finishScript H m w.disk tx.t tx.key tx.chunks
+      let (w', o) := w.exec evs (fun w => { w with handle := some m', txs := w.txs.filter (·.id ≠ id) })
+      pure (w', withOutcome armed o (match r with | .ok => "ok" | .panic _ => "panic"))
+    | _, _ => pure (w, "notx")
+  | ["abort", id] => do
+    let id ← id.toNat?
+    match w.txs.find? (·.id = id) with
+    | some tx =>
+      let (w', o) := w.exec (abortScript tx.t) (fun w => { w with txs := w.txs.filter (·.id ≠ id) })
+      pure (w', withOutcome armed o "ok")
+    | none => pure (w, "notx")
+  | ["remove", k] => do
+    let k ← parseHex k
+    match w.handle with
+    | none => pure (w, "nohandle")
+    | some m =>
+      let (evs, m', r) := removeScript H m w.disk k
+      let (w', o) := w.exec evs (fun w => { w with handle := some m' })
+      pure (w', withOutcome armed o (match r with | .ok b => toString b | .error _ => "panic"))
+  | ["rrange", lo, hi] => do
+    let lo ← parseLo lo
+    let hi ← parseHi hi
+    match w.handle with
+    | none => pure (w, "nohandle")
+    | some m =>
+      let (evs, m', r) := removeRangeScript H m w.disk lo hi
+      let (w', o) := w.exec evs (fun w => { w with handle := some m' })
+      pure (w', withOutcome armed o (match r with | .ok n => toString n | .error _ => "panic"))
+  | ["checkpoint"] =>
+    match w.handle with
+    | none => some (w, "nohandle")
+    | some m =>
+      let (evs, m') := checkpointScript .explicit m w.disk
+      let (w', o) := w.exec evs (fun w => { w with handle := some m' })
+      some (w', withOutcome armed o "ok")
+  | ["get", k] | ["reader", k] => do
+    let k ← parseHex k
+    match w.handle with
+    | none => pure (w, "nohandle")
+    | some m =>
+      pure (w, match getBlob m w.disk k with
+        | .absent => "absent" | .missing => "err missing"
+        | .found c => s!"found {digest c}".replace ":" " ")
+  | ["size", k] => do
+    let k ← parseHex k
+    match w.handle with
+    | none => pure (w, "nohandle")
+    | some m => pure (w, match kLookup m.idx.map k with | none => "absent" | some i => toString i.size)
+  | ["getrange", k, s, e] => do
+    let k ← parseHex k
+    let s ← s.toNat?
+    let e ← e.toNat?
+    match w.handle with
+    | none => pure (w, "nohandle")
+    | some m =>
+      match kLookup m.idx.map k with
+      | none => pure (w, "absent")
+      | some item =>
+        if s ≥ item.size then pure (w, "ok -") else
+        match w.disk.get (.cas item.hash) with
+        | none => pure (w, if s > min e item.size then "err invalidRange" else "err missing")
+        | some f =>
+          match getRange f.data item.size [] s e with
+          | .ok out => pure (w, s!"ok {toHexString out.bytes}")
+          | .error _ => pure (w, "err invalidRange")
+  | ["iter"] =>
+    match w.handle with
+    | none => some (w, "nohandle")
+    | some m => some (w, showEntries m.idx.map)
+  | ["riter", lo, hi] => do
+    let lo ← parseLo lo
+    let hi ← parseHi hi
+    match w.handle with
+    | none => pure (w, "nohandle")
+    | some m => pure (w, showEntries (m.idx.map.filter (fun (k, _) => inRange m.cfg.kind.lt lo hi k)))
+  | ["stats"] =>
+    match w.handle with
+    | none => some (w, "nohandle")
+    | some m => some (w, s!"{m.idx.uniqueBlobs} {m.idx.totalBytes} {m.idx.serializedSize}")
+  | ["blobs"] =>
+    match w.handle with
+    | none => some (w, "nohandle")
+    | some m =>
+      let rcs := (m.idx.rc.toArray.qsort (fun a b => bytesLt a.1 b.1)).toList
+      some (w, showList (fun (h, c) => s!"{toHexString h}:{c}") rcs)
+  | ["len"] =>
+    match w.handle with
+    | none => some (w, "nohandle")
+    | some m => some (w, toString m.idx.map.length)
+  | ["mem"] =>
+    match w.handle with
+    | none => some (w, "nohandle")
+    | some m => some (w, s!"next={m.next} persisted={m.idx.lastPersisted} intents=0")
+  | ["dump"] => some (w, showDump w.disk)
+  | ["trace"] => some ({ w with trace := [] }, showTrace w.trace)
+  | _ => none
 
 def step (st : DState) (line : String) : DState × String :=
   match line.trimAscii.toString.splitOn " " with
@@ -179,7 +437,10 @@ def step (st : DState) (line : String) : DState × String :=
     | some n => ({ st with idx := recomputeStats st.idx n }, "ok")
     | none => (st, "bad-op")
   | ["idx_obs"] => (st, showIdxObs st.idx)
-  | _ => (st, "bad-op")
+  | toks =>
+    match storeStep st.w toks with
+    | some (w', r) => ({ st with w := w' }, r)
+    | none => (st, "bad-op")
 
 partial def loop (h : IO.FS.Stream) (out : IO.FS.Stream) (st : DState) : IO Unit := do
   let line ← h.getLine
